@@ -191,7 +191,9 @@ def check(ctx):
             for x in walk(inner):
                 if isinstance(x, tuple) and x and x[0] == 'call' and call_name(x) == 'decrypt':
                     dec = x
-            good = dec is not None and inner[0] == 'vfield' and inner[2] in ('Some', 'Ok') and dec[2][0][0] == 'elem' and dec[2][1][0] == 'param'
+            # the success value of decrypt(..): written `decrypt(m, k).ok()` + Some payload, `decrypt(m, k)?`, or its Ok payload
+            is_payload = (inner[0] == 'vfield' and inner[2] in ('Some', 'Ok')) or inner == dec
+            good = dec is not None and is_payload and dec[2][0][0] == 'elem' and dec[2][1][0] == 'param'
             if good:
                 msgs_param = elem_source(dec[2][0][1])
                 ctx.ok('C10.3', ctx.site(helper, bi, si), 'plaintext helper returns Ok only with the successful result of SealedMessage::decrypt(one of the messages, caller\'s key)')
